@@ -997,24 +997,34 @@ def check_suspended_decoders_with_logging(rep):
     cur['x'] = 258
     data = bytes(codec.ENC['der'].encode(v))
     outs = []
-    for logger in (None, debug.Debug('all', printer=lambda m: None), None):
+    import concurrent.futures
+    # the steps of a suspended decoder may be taken by different threads (a worker pool handling "more data arrived" events):
+    # one step at a time, handed to the workers in turn - a deterministic schedule
+    pools = [concurrent.futures.ThreadPoolExecutor(max_workers=1) for _ in range(2)]
+    turn = [0]
+
+    def step_elsewhere(it):
+        turn[0] += 1
+        return pools[turn[0] % 2].submit(next, it).result(timeout=30)
+    for logger, stepper in ((None, next), (debug.Debug('all', printer=lambda m: None), next), (None, next),
+                            (None, step_elsewhere), (debug.Debug('all', printer=lambda m: None), step_elsewhere)):
         debug.setLogger(logger)
         try:
             res = []
             decs = []
-            for k in range(6):
+            for k in range(7):      # an odd number: with two workers taking steps in turn, a decoder's steps change threads
                 s = streams.GrowingStream(seekable=(k % 2 == 0))
                 s.feed(data[:-1])
                 it = iter(codec.DEC['der'].StreamingDecoder(s, asn1Spec=t))
                 decs.append((s, it))
             try:
                 for s, it in decs:
-                    x = next(it)
+                    x = stepper(it)
                     res.append('U' if isinstance(x, error.SubstrateUnderrunError) else 'V')
                 for s, it in decs:
                     s.feed(data[-1:])
                     s.close_input()
-                    x = next(it)
+                    x = stepper(it)
                     res.append('U' if isinstance(x, error.SubstrateUnderrunError) else bytes(codec.ENC['der'].encode(x)).hex())
             except Exception as e:  # noqa
                 res.append('raises ' + type(e).__name__)
@@ -1023,9 +1033,16 @@ def check_suspended_decoders_with_logging(rep):
             debug.setLogger(None)
     rep.evaluations += 1
     rep.count('suspended-decoders-with-logging')
+    for p_ in pools:
+        p_.shutdown(wait=False)
     if not (outs[0] == outs[1] == outs[2]) or outs[0][-1] != data.hex():
-        rep.fail('logging-changes-outcome', 'six suspended streaming decoders resumed in turn: %s with logging off, %s with logging on, '
+        rep.fail('logging-changes-outcome', 'seven suspended streaming decoders resumed in turn: %s with logging off, %s with logging on, '
                  '%s off again' % (outs[0][-3:], outs[1][-3:], outs[2][-3:]), {'kind': 'logging-suspended-decoders', 'bytes': data.hex()})
+    elif not (outs[3] == outs[0] and outs[4] == outs[0]):
+        rep.fail('thread-changes-outcome' + ('-with-logging' if outs[3] == outs[0] else ''),
+                 'seven suspended streaming decoders whose steps are taken by two worker threads in turn: %s with logging off, %s with '
+                 'logging on; on one thread %s' % (outs[3][-3:], outs[4][-3:], outs[0][-3:]),
+                 {'kind': 'suspended-decoders-across-threads', 'bytes': data.hex()})
 
 
 def replay(path):
